@@ -44,7 +44,7 @@ for p in props:
         "replay_cmd_template": "./check %s --replay {path}" % pid,
         "engine": vlib.ENGINE_OF.get(pid, "pie-trace"),
         "level_claimed": {"category": "model_checking", "text": text, "design_ref": ref},
-        "level_note": "Trusted base: TLC, the TLA+ specification in /verif/spec, the Rust harness (interpreter task, instrumented resource/checkers/tracker). Bounded: scenarios are generated (seeded) and TLC-enumerated inside stated constants; no unbounded proof.",
+        "level_note": vlib.LEVEL_NOTE.get(vlib.ENGINE_OF.get(pid, "pie-trace")),
         "technique": vlib.TECHNIQUE_OF.get(pid, "TLA+ specification + TLC trace validation of implementation runs"),
     })
 pending = [{"property_id": p["id"], "reason": vlib.NOT_YET.get(p["id"], "check not built yet (work in progress)")}
